@@ -6,11 +6,15 @@ _CORPUS = ("hand-written corpus of small Hydro flows (hv_det_flows) compiled by 
 
 reg("C28", [mon("hydro", "hv_det_emb")],
     technique="runtime monitor: " + _CORPUS + "; metamorphic oracle over all tick partitions plus plain-Rust reference",
-    text="87 flows using only safe top-level APIs (map/filter/flat_map/filter_map/inspect/partition/chain/"
+    text="97 flows using only safe top-level APIs (map/filter/flat_map/filter_map/inspect/partition/chain/"
          "merge_unordered/cross_product/join (symmetric and half)/anti_join/unique/enumerate/scan/limit/fold/"
          "reduce/count/max/min/first/last/collect_vec/cross_singleton/threshold, keyed fold/reduce/first/"
          "value_counts/enumerate/scan/limit/get/unique/entries/values/keys, keyed-singleton get_max_key/"
-         "key_count/into_singleton, singleton/optional map/filter/or/unwrap_or). For every flow 500 (quick) / "
+         "key_count/into_singleton, singleton/optional map/filter/or/unwrap_or; top-level joins / cross products "
+         "with Bounded operands: source_iter x source_iter via cross_product_nested_loop, cross_product, join, "
+         "repeat_with_keys and KeyedSingleton::join_keyed_stream, each next to an unrelated unbounded input that is "
+         "echoed to a second output so that later ticks run, plus bounded-left x unbounded-right and "
+         "unbounded-left x bounded-right joins). For every flow 500 (quick) / "
          "5000 (thorough) random inputs of <= 6 items in total are run under EVERY partition of the inputs into "
          "ticks (all sequences of per-input chunk-size vectors; <= 2000 per input, every 5th with empty ticks "
          "inserted) and 60/500 30-item inputs under 40/100 random partitions each; the final observable (sequence for "
@@ -19,13 +23,12 @@ reg("C28", [mon("hydro", "hv_det_emb")],
     note="Observers (assume_ordering / snapshot+all_ticks wrappers) are trusted and outside the judged program. "
          "Only the embedded/production path with run_tick_sync is exercised; inputs are i64 / (i64,i64) with small "
          "domains; flows with batch()/sliced! are out of scope (every such API takes a nondet! argument). "
-         "Stream::filter_not_in on an Unbounded stream and key_count()/into_singleton() on MonotonicValue/Unbounded "
-         "keyed singletons cannot be built with debug assertions on (metadata assertion panics) and are therefore "
-         "not in the corpus.")
+         "key_count()/into_singleton() on MonotonicValue/Unbounded keyed singletons cannot be built with debug "
+         "assertions on (metadata assertion panics) and are therefore not in the corpus.")
 
 reg("C29", [mon("hydro", "hv_det_emb")],
     technique="runtime monitor: " + _CORPUS + "; plain-Rust iterator reference for output order, cross-key interleaving and key-deletion metamorphic checks",
-    text="28 flows typed TotalOrder or keyed (stateless maps, enumerate, scan, limit, unique, chain, join-half, "
+    text="36 flows typed TotalOrder or keyed (stateless maps, enumerate, scan, limit, unique, chain, join-half, "
          "anti_join, cross_singleton, threshold; keyed map/filter/flat_map/enumerate/scan/limit/get/"
          "filter_key_not_in): under every tick partition of 600/6000 random inputs (<= 6 items) and random partitions of "
          "60/500 30-item inputs the emitted sequence (per key for keyed streams, observed through "
